@@ -32,6 +32,20 @@ CHO_ADDS = [
     "e OCTET STRING (SIZE(0..300))",
 ]
 ENU_ADDS = ["z", "w", "v"]
+# a chain whose FIRST addition is big: the bytes of its open-type length are what a receiver that
+# knows more additions than were transmitted would misread as presence flags
+BIG_ADDS = [
+    "b1 OCTET STRING (SIZE(0..300)) OPTIONAL",
+    "b2 UTF8String OPTIONAL",
+    "b3 BOOLEAN OPTIONAL",
+    "b4 INTEGER (0..255) OPTIONAL",
+    "b5 OCTET STRING (SIZE(0..300)) OPTIONAL",
+    "b6 BOOLEAN DEFAULT TRUE",
+    "b7 SEQUENCE (SIZE(0..4)) OF INTEGER (0..255) OPTIONAL",
+    "b8 BOOLEAN OPTIONAL",
+    "b9 INTEGER (0..7) OPTIONAL",
+    "b10 BOOLEAN OPTIONAL",
+]
 
 def containers(chain, ver, extra=""):
     return f"""  Wrap ::= SEQUENCE {{ m Msg, tail INTEGER (0..255) }}          -- @chain={chain}.Wrap:{ver}
@@ -60,6 +74,10 @@ def main():
         adds = "".join(", " + a for a in DEF_ADDS[:v])
         body = f"  Msg ::= SEQUENCE {{ id INTEGER (0..7), ...{adds} }}     -- @chain=def.Msg:{v}\n" + containers("def", v)
         write(f"chain_def_v{v}", f"ChainDefV{v}", body)
+    for v in range(len(BIG_ADDS) + 1):
+        adds = "".join(", " + a for a in BIG_ADDS[:v])
+        body = f"  Msg ::= SEQUENCE {{ id INTEGER (0..255), ...{adds} }}     -- @chain=big.Msg:{v}\n" + containers("big", v)
+        write(f"chain_big_v{v}", f"ChainBigV{v}", body)
     for v in range(len(CHO_ADDS) + 1):
         adds = "".join(", " + a for a in CHO_ADDS[:v])
         body = f"  Msg ::= CHOICE {{ a INTEGER (0..255), b BOOLEAN, ...{adds} }}     -- @chain=cho.Msg:{v}\n" + containers("cho", v)
